@@ -520,6 +520,9 @@ def run(ctx):
         plans = [(ATOMS, QUICK_WIDE, 3, ['strict', 'tolerant'], 20), (ATOMS, ['default'], 4, ['tolerant'], 100)]
     else:
         plans = [(ATOMS, names_all, 4, ['strict', 'tolerant'], 400), (ATOMS, ['default'], 5, ['tolerant'], 400)]
+    # long whitespace runs (longer than any buffer a scanner might use): leading, trailing, between tokens, paragraph breaks
+    WIDE = ['a', ' ' * 33, '\n' + ' ' * 34, '\t' * 31 + ' \n', '\\m', '%', '\n', ' ' * 64]
+    plans.append((WIDE, ['default', 'noctx', 'nopar', 'math_dollar'], 3, ['strict', 'tolerant'], 7))
     for atoms, names, K, modes, se in plans:
         m = common.run_shards(ctx, ('harness.c11', 'TokConsumer'), _export_jobs(atoms, names, K, modes, 3000, se),
                               what='TokReader export K=%d, %d configurations' % (K, len(names)))
